@@ -35,9 +35,10 @@ Lemma Rnone_frame2 C C' : same_core C C' -> c_cfg C' = c_cfg C -> c_clients C' =
 Proof. unfold Rnone. intros _ _ E H. congruence. Qed.
 Lemma Rnone_apply C i e : Rnone C (fst (apply_bc C i e)).
 Proof. unfold Rnone. intro H. pose proof (apply_bc_rest C i e) as (_ & X & _). congruence. Qed.
-Lemma Rnone_reqs_app C i q : Rnone C (upd_bc C i (fun b => set_reqs (b_reqs b ++ [q]) b)).
+Lemma Rnone_reqs_app C i q : q_to q = false -> Rnone C (upd_bc C i (fun b => set_reqs (b_reqs b ++ [q]) b)).
 Proof. unfold Rnone. auto. Qed.
-Lemma Rnone_creq C i h f : (forall q, q_owner (f q) = q_owner q) -> Rnone C (upd_creq C i h f).
+Lemma Rnone_creq C i h f :
+  (forall q, q_owner (f q) = q_owner q /\ q_timer (f q) = None /\ (q_to q = true -> q_to (f q) = true)) -> Rnone C (upd_creq C i h f).
 Proof. unfold Rnone. auto. Qed.
 Lemma Rnone_clients C (cl : list (Z * nat)) x : c_clients C = Some cl -> Rnone C (with_clients C x).
 Proof. unfold Rnone. congruence. Qed.
